@@ -129,7 +129,10 @@ def run_tlc(module: str, cfg_text: str, *, name: str, workers: int = 1, env: dic
     wd.mkdir(parents=True, exist_ok=True)
     cfg = wd / f"{module}.cfg"
     cfg.write_text(cfg_text)
-    cmd = ["java", "-XX:+UseParallelGC", "-XX:ParallelGCThreads=2", "-XX:TieredStopAtLevel=4", "-Xss64m", f"-Xmx{heap}", "-cp", JAR, "tlc2.TLC",
+    jt = wd / "jt"                                  # SANY unpacks the standard modules into java.io.tmpdir on every run: keep that out of /tmp
+    shutil.rmtree(jt, ignore_errors=True)
+    jt.mkdir(parents=True, exist_ok=True)
+    cmd = ["java", f"-Djava.io.tmpdir={jt}", "-XX:+UseParallelGC", "-XX:ParallelGCThreads=2", "-XX:TieredStopAtLevel=4", "-Xss64m", f"-Xmx{heap}", "-cp", JAR, "tlc2.TLC",
            "-workers", str(workers), "-metadir", str(wd / "md"), "-noGenerateSpecTE",
            "-config", str(cfg)]
     if cont:
